@@ -54,6 +54,13 @@ Proof. reflexivity. Qed.
 Theorem C12_fx_of_int : forall sw iw fw v, 0 <= sw -> 1 <= iw -> 0 <= fw -> (0 <= v \/ sw <> 0) -> v <= 2 ^ (iw - 1) ->
   FixedPoint_intToFixedPoint sw iw fw v = Some ((v * 2 ^ fw) mod 2 ^ (sw + iw + fw)).
 Proof. exact intToFixedPoint_spec. Qed.
+(* toFloatingPoint returns numerator / 2^fw (one correctly rounded division, exact for w <= 53): the numerator is the signed reading *)
+Theorem C12_fx_to_float_signed : forall iw fw v, 0 <= iw -> 0 <= fw -> 0 <= v < 2 ^ (1 + iw + fw) ->
+  FixedPoint_toFloat_num 1 iw fw v = c2_decode (1 + iw + fw) v.
+Proof. exact toFloat_num_signed. Qed.
+Theorem C12_fx_to_float_unsigned : forall iw fw v, 0 <= iw -> 0 <= fw -> 0 <= v < 2 ^ (iw + fw) ->
+  FixedPoint_toFloat_num 0 iw fw v = v.
+Proof. exact toFloat_num_unsigned. Qed.
 (* guard iw >= 1 is needed: finding #23 *)
 Theorem C12_fx_no_integer_bits_refuted : forall sw fw a b,
   FixedPoint_add sw 0 fw a b = None /\ FixedPoint_sub sw 0 fw a b = None /\ FixedPoint_mult sw 0 fw a b = None.
@@ -240,6 +247,19 @@ Proof. exact encode_decode_dp. Qed.
 Theorem C12_fph_encode_decode_sp_partial : forall v, 0 <= v < 2 ^ 32 -> (fld_e 8 23 v = 255 -> fld_m 8 23 v = 0) -> v <> 2 ^ 31 ->
   FPH_to_ieee754 fph_sp (FPH_from_ieee754 fph_sp v) = v.
 Proof. exact encode_decode_sp. Qed.
+(* stronger: the encoder is exact on EVERY representable value, however the float is written as n / 2^d: if x denotes the value
+   of the non-NaN pattern v (same sign) then encoding x gives v *)
+Theorem C12_fph_encode_exact_dp_partial : forall x v, 0 <= v < 2 ^ 64 ->
+  match x with PNaN => False | PInf _ => True | PFin _ n _ => 0 <= n end ->
+  xeq (pf_value x) (ieee_value 11 52 v) -> pf_neg x = ieee_neg 11 52 v -> FPH_to_ieee754 fph_dp x = v.
+Proof. exact encode_exact_dp. Qed.
+Theorem C12_fph_encode_exact_sp_partial : forall x v, 0 <= v < 2 ^ 32 ->
+  match x with PNaN => False | PInf _ => True | PFin _ n _ => 0 <= n end ->
+  xeq (pf_value x) (ieee_value 8 23 v) -> pf_neg x = ieee_neg 8 23 v -> v <> 2 ^ 31 -> FPH_to_ieee754 fph_sp x = v.
+Proof. exact encode_exact_sp. Qed.
+Example C12_fph_encode_exact_ex :     (* 0.15625 = 5/32 written as 40/256 *)
+  xeqb (pf_value (PFin false 40 8)) (ieee_value 8 23 0x3E200000) = true /\ FPH_to_ieee754 fph_sp (PFin false 40 8) = 0x3E200000.
+Proof. vm_compute. split; reflexivity. Qed.
 Theorem C12_fph_sp_neg_zero_refuted :
   FPH_to_ieee754 fph_sp (PFin true 0 0) = 0 /\ FPH_to_ieee754 fph_dp (PFin true 0 0) = 2 ^ 63 /\ FPH_from_ieee754 fph_sp (2 ^ 31) = PFin true 0 0.
 Proof. exact encode_sp_neg_zero. Qed.
@@ -335,3 +355,7 @@ Print Assumptions C12_fph_sp_neg_zero_refuted.
 Print Assumptions C12_fph_encode_decode_sp_if_fixed_partial.
 Print Assumptions C12_spec_is_flocq_b32.
 Print Assumptions C12_spec_is_flocq_b64.
+Print Assumptions C12_fph_encode_exact_dp_partial.
+Print Assumptions C12_fph_encode_exact_sp_partial.
+Print Assumptions C12_fx_to_float_signed.
+Print Assumptions C12_fx_to_float_unsigned.
